@@ -32,7 +32,9 @@ def trace():
     ns = opshim.namespace()
     shim.load('odak/learn/wave/classical.py', ['custom'], ns)
     calls = []
-    def gpk(**kw):
+    bind_gpk = shim.binder('odak/learn/wave/classical.py', 'get_propagation_kernel')
+    def gpk(*a, **kw):
+        kw = bind_gpk(*a, **kw)          # by name, however the caller passed them
         calls.append(kw)
         return opshim.FT('kernel', kw.get('propagation_type'), shim.E.lift(kw['wavelength']), shim.E.lift(kw['distance']), shape=(kw['nu'], kw['nv']))
     ns['get_propagation_kernel'] = gpk
